@@ -1067,6 +1067,8 @@ fn recover(run: &Run, cfg: &Cfg, img: &[u8], lives: &[(Meta4, u8)], ctx: &str, a
       bad("live-bytes-lost", format!("live range [{},{}) lost its bytes", m.0, m.0 + m.1));
     }
   }
+  // a second kill right after the reopen, before any operation: the file is what the recovery pass left
+  let again: Option<Vec<u8>> = if variant == 0 && !at.starts_with("a second time") { Some(a.memory().to_vec()) } else { None };
   let s = a.snap(64);
   if s.truncated || s.cyclic || s.wild {
     bad("free-list-broken", format!("free list after recovery: {:?}", s));
@@ -1133,6 +1135,9 @@ fn recover(run: &Run, cfg: &Cfg, img: &[u8], lives: &[(Meta4, u8)], ctx: &str, a
   }
   drop(a);
   let _ = std::fs::remove_file(&p);
+  if let Some(img2) = again {
+    recover(run, cfg, &img2, lives, ctx, &format!("a second time, right after the reopen that followed the crash {}", at), case);
+  }
 }
 
 fn c06_cell(run: &Run, cfg: &Cfg, alphabet: &[Op], depth: usize) {
@@ -1389,7 +1394,7 @@ pub fn check_c06(tier: Tier) -> i32 {
   }
   c06_concurrent(&run, thorough);
   run.sample(|| json!({"cfg": "sync Optimistic file arena", "start": "full-2eq", "history": "B(7) B(16)", "crash_images": "one image before every atomic access and before the zeroing of the last operation, plus one after it", "recovery": "map_mut, cursor in range, pre-crash live ranges intact, probe workload (allocations, releases, discard_freelist) terminates under an event budget and never re-issues a live range"}));
-  run.rule("for every history of depth 4 (thorough: 5) from 5 start states in 7 cells (one at file offset 4096): the shared mapping is copied before every atomic access (and before the zeroing) of the last operation and after it; every image is written to a file, reopened writable and put through the recovery oracle; unsync: image at every operation boundary; evaluations = crash images recovered; states = distinct images");
+  run.rule("for every history of depth 4 (thorough: 5) from 5 start states in 7 cells (one at file offset 4096): the shared mapping is copied before every atomic access (and before the zeroing) of the last operation and after it; every image is written to a file, reopened writable (capacity named or not, with or without the create flag) and put through the recovery oracle, every fourth one a second time as the reopen left it (a kill right after the recovery pass); unsync: image at every operation boundary; evaluations = crash images recovered; states = distinct images");
   run.set("bounds", json!({"depth": depth, "alphabet": alphabet.iter().map(|o| o.short()).collect::<Vec<_>>(), "probe_budget_events_per_call": 600}));
   run.assume("crash model: process kill with the page cache intact (no torn pages, no reordering of write-back)");
   run.finish()
